@@ -33,13 +33,15 @@ def run(repo, rep, tier):
     rep.decided = ["D1 LEAP_TABLE == IERS list", "D2 lookup/threshold on civil year-month; both directions start 1972-01",
                    "D3 override symmetric", "D4 Delta-T joints < 1 s and 1972-2018 band 3.5 s",
                    "D5 every keyword combination reaches the right branch (explicit leap_seconds wins over utc=True)"]
-    rep.undecided = ["which entry leap_seconds(year, month) selects for each month", "1 ms read-back"]
+    rep.undecided = ["1 ms read-back"]
+    rep.decided.append("D6 leap_seconds(year, month) selects the IERS entry for every (year, month)")
     rep.assumptions = ["IERS list embedded in the checker", "32.184 s + 10 s from the property text"]
     d1_table(repo, rep)
     d2_taint(repo, rep)
     d3_override(repo, rep)
     d4_deltat(repo, rep, tier)
     d5_kwpaths(repo, rep)
+    d6_step(repo, rep)
     fam = [("Epoch", "Epoch." + q) for q in ("leap_seconds", "get_last_leap_second", "_compute_jde", "get_date", "tt2ut")]
     effects.check_functions(repo, rep, fam)
     guards.check_functions(repo, rep, fam)
@@ -262,6 +264,67 @@ def d3_override(repo, rep):
                           "the explicit leap_seconds branch differs from the automatic branch by more than the table value "
                           "(same terms: %s, same guard: %s)" % (ok, same_guard))
     rep.floor("override branch pairs", n, 2)
+
+
+def d6_step(repo, rep):
+    """R-STEP: leap_seconds(year, month) touches its arguments only through comparisons of year + c(month) with
+    the table keys, so it is a step function of the year for each month; its decision structure is recovered
+    from the source (loops over the literal table unrolled) and compared with the IERS step function on every
+    ordering class of (year, month) against the keys."""
+    from ..rules import eval_exact, NotEvaluable
+    rep.rule("R-STEP", "decision structure of leap_seconds(year, month) == cumulative IERS count on every class of (year, month) relative to the table keys")
+    q = "Epoch.leap_seconds"
+    site = "Epoch." + q
+    fn = repo.func("Epoch", q)
+    an = [a.arg for a in fn.args.args]
+    Y, M = T.sym("NUM_Y"), T.sym("NUM_M")
+    try:
+        t = ret_term(repo, "Epoch", q, arg_terms={an[0]: Y, an[1]: M}, unroll=64)
+    except AnalysisError as e:
+        rep.inconcl("R-STEP", site, "decision structure not recovered: %s" % e)
+        return
+    # the arguments occur only in comparisons (and the comparisons only against numbers)
+    syms_outside = set()
+
+    def scan(x, in_cmp):
+        if not isinstance(x, tuple) or not x:
+            return
+        if x[0] == "cmp":
+            in_cmp = True
+        if x[0] == "sym" and not in_cmp:
+            syms_outside.add(x[1])
+        if x[0] == "call" and x[1] not in ("mod", "floor", "int", "abs"):
+            syms_outside.add("call " + x[1])
+        for y in x[1:]:
+            scan(y, in_cmp)
+    scan(t, False)
+    if syms_outside:
+        rep.inconcl("R-STEP", site, "the result is not a pure decision over comparisons of the arguments (%s)" % sorted(syms_outside)[:3])
+        return
+    keys = sorted(x[1] for x in T.walk(t) if x[0] == "num" and 1900 < x[1] < 2200)
+    lo, hi = int(min(keys)) - 3, int(max(keys)) + 3
+    bad = []
+    n = 0
+    for y in range(lo, hi + 1):
+        for m in range(1, 13):
+            pos = Fraction(y) + Fraction(m - 1, 12)
+            want = max([c for d, c in IERS if Fraction(str(d)) <= pos], default=0)
+            try:
+                got = eval_exact(t, {Y: Fraction(y), M: Fraction(m)})
+            except NotEvaluable as e:
+                bad.append((y, m, "not decidable: %s" % e, want))
+                continue
+            n += 1
+            if got != want:
+                bad.append((y, m, int(got), want))
+    rep.floor("(year, month) classes decided for leap_seconds", n, 12 * 40)
+    if not bad:
+        rep.ok("R-STEP", site, "step function equals the IERS count on all %d (year, month) classes %d-%d (constant outside: only comparisons with keys %s..%s)"
+               % (n, lo, hi, float(keys[0]), float(keys[-1])), obligation=True)
+    # group consecutive failures
+    for y, m, got, want in bad[:6]:
+        rep.violation("R-STEP", site, "step:%d-%02d" % (y, m),
+                      "leap_seconds(%d, %d) selects %s; the IERS cumulative count for %d-%02d is %d" % (y, m, got, y, m, want), obligation=True)
 
 
 def _kwd(**k):
